@@ -154,7 +154,7 @@ class RandomGen:
                 p['w%d' % i] = 15 if rng.random() < pf['p_with_accept'] else rng.randrange(0, 16)
             for i in range(s['ns']):
                 r = rng.random()
-                if r > 1 - pf['p_se_nested'] and s['fn'] not in ('gs',) and 'nobj' not in p:
+                if r > 1 - pf['p_se_nested'] and s['fn'] not in ('gs', 'r') and 'nobj' not in p:
                     # conditional recursion (nested v(arg-1) while arg>0): may target the expectation's own object,
                     # for an expectation on v that is genuine recursion into the same mock function
                     tg = [o for o in mock_objs() if o.kind != 'N']
@@ -163,12 +163,15 @@ class RandomGen:
                         p['se%d' % i] = 3
                         p['nobj'] = (own[0] if own and rng.random() < 0.6 else rng.choice(tg)).id
                         continue
+                if s['fn'] == 'r' and rng.random() < 0.4:
+                    p['se%d' % i] = 4        # write through the in/out parameter
+                    continue
                 if r < pf['p_se_throw']:
                     p['se%d' % i] = 1
                 elif r < pf['p_se_throw'] + pf['p_se_nested']:
                     tg = [o for o in mock_objs() if o.id != ob.id and o.kind != 'N']
                     # the nested target function is always v: an expectation on v never nests itself (no call cycles)
-                    if tg and s['fn'] != 'v' and 'nobj' not in p:
+                    if tg and s['fn'] not in ('v', 'r') and 'nobj' not in p:
                         p['se%d' % i] = 2
                         p['nobj'] = rng.choice(tg).id
                         p['narg'] = rng.choice(ARGS)
